@@ -151,6 +151,32 @@ def load_reference():
     return _ref_cache
 
 
+def _inline_return_temps(f, known):
+    out = []
+    counts = {}
+    for n in ast.walk(f):
+        if isinstance(n, ast.Name):
+            counts[n.id] = counts.get(n.id, 0) + 1
+    for node in ast.walk(f):
+        for field in ('body', 'orelse', 'finalbody'):
+            body = getattr(node, field, None)
+            if not isinstance(body, list):
+                continue
+            i = 0
+            while i + 1 < len(body):
+                a, r = body[i], body[i + 1]
+                if isinstance(a, ast.Assign) and len(a.targets) == 1 and isinstance(a.targets[0], ast.Name) and isinstance(r, ast.Return) \
+                        and isinstance(r.value, ast.Name) and r.value.id == a.targets[0].id and a.targets[0].id not in known \
+                        and counts.get(a.targets[0].id) == 2:
+                    new = ast.Return(value=a.value)
+                    ast.copy_location(new, a)
+                    new.end_lineno, new.end_col_offset = getattr(a, 'end_lineno', None), getattr(a, 'end_col_offset', None)
+                    body[i:i + 2] = [new]
+                    out.append((a.targets[0].id, None))
+                i += 1
+    return out
+
+
 def normalise(mname, tree):
     """rename renamed locals of the module's functions back to their reference names; returns the list of renames done"""
     ref = load_reference().get(mname)
@@ -159,6 +185,10 @@ def normalise(mname, tree):
         return done
     for q, f in functions_of(tree):
         rf = ref.get(q)
+        # a local the reference function does not have, bound once and returned by the very next statement, is a "return through a
+        # temporary" refactoring: inline it, so that rules see `return EXPR` as in the reference
+        for a, r in _inline_return_temps(f, set(rf or ())):
+            done.append((q, a, '<inlined into return>'))
         if not rf:
             continue
         act_names = local_names(f)
